@@ -1241,9 +1241,12 @@ func sameTerm(a, b ssa.Value) bool {
 
 // upperGuarded: some dominating branch establishes (idxBase + k') < B with k' >= k on the edge leading to blk.
 func upperGuarded(fn *ssa.Function, blk *ssa.BasicBlock, at ssa.Instruction, base ssa.Value, k int64) bool {
-	covers := func(g ssa.Value) bool {
-		gb, gk := splitAdd(g)
-		return sameTerm(gb, base) && gk >= k
+	// G < B with G = gb + gk and B = bb + bc (constants of either sign) says gb + (gk - bc) < bb: a bound written
+	// as e < n-1 covers a read at e+1
+	coversB := func(g, bnd ssa.Value) bool {
+		gb, gk := linTerm(g)
+		_, bc := linTerm(bnd)
+		return sameTerm(gb, base) && gk-bc >= k
 	}
 	for _, b := range fn.Blocks {
 		iff := blockIf(b)
@@ -1258,19 +1261,19 @@ func upperGuarded(fn *ssa.Function, blk *ssa.BasicBlock, at ssa.Instruction, bas
 		edge := -1
 		switch bo.Op {
 		case token.LSS: // G < B
-			if covers(bo.X) {
+			if coversB(bo.X, bo.Y) {
 				edge = 0
 			}
 		case token.GEQ: // G >= B : false edge
-			if covers(bo.X) {
+			if coversB(bo.X, bo.Y) {
 				edge = 1
 			}
 		case token.GTR: // B > G
-			if covers(bo.Y) {
+			if coversB(bo.Y, bo.X) {
 				edge = 0
 			}
 		case token.LEQ: // B <= G : false edge
-			if covers(bo.Y) {
+			if coversB(bo.Y, bo.X) {
 				edge = 1
 			}
 		}
